@@ -104,6 +104,20 @@ def render_patch(world, pdesc, ctx, op_index, inv):
             if item.get("t") is not None and item.get("ttemp"):
                 item["t"] = prefix + item["t"]
             lines.append(isa.asm(item))
+    oth = pdesc.get("other")
+    if oth:
+        # contents for another section, behind the code of the patch
+        if oth["sect"] == ".data":
+            lines.append(".data")
+        elif world.desc["fmt"] == "elf":
+            lines.append('.section %s,"aw",@progbits' % oth["sect"])
+        else:
+            lines.append('.section %s,"dw"' % oth["sect"])
+        for ln in oth["lines"]:
+            if "label" in ln:
+                lines.append(((prefix + ln["label"]) if ln.get("temp") else ln["label"]) + ":")
+            else:
+                lines.append(ln["raw"].replace("{T}", prefix))
     return "\n".join(lines) + "\n"
 
 
